@@ -15,6 +15,11 @@ import MysticVerif.Proofs.RefFmin
 import MysticVerif.Proofs.NMInit
 import MysticVerif.Proofs.Powell
 import MysticVerif.Proofs.Brent
+import Mathlib.Tactic.FieldSimp
+import Mathlib.Tactic.Ring
+import Mathlib.Tactic.NormNum
+import Mathlib.Tactic.LinearCombination
+import Mathlib.Algebra.CharZero.Defs
 
 namespace MysticVerif.C08
 open MysticVerif.Strategy MysticVerif.Solver
@@ -446,6 +451,68 @@ example : refInitVal (fun v => decide (v = 0)) (1 : Rat) (1/20) (1/4000) [0, 1/1
     = [1/4000, 21/20000000000, -21/10] := by decide +kernel
 example : crtConv (R := Int) (E := Int) (fun a => (a.natAbs : Int)) (fun a => (a.natAbs : Int)) 2 3 [([0, 0], 5), ([2, -1], 8), ([0, 1], 2)] = true := by decide
 example : crtConv (R := Int) (E := Int) (fun a => (a.natAbs : Int)) (fun a => (a.natAbs : Int)) 2 2 [([0, 0], 5), ([2, -1], 8), ([0, 1], 2)] = false := by decide
+
+/-! ### the coefficient sets (Model/NMInit.lean `mysticCoef`)
+
+`nm_refines_ref` holds for EVERY coefficient record `c`: run with the same coefficients the two programs agree.  What
+is left to state is which coefficients `Solve(adaptive=...)` selects. -/
+
+/-- **The adaptive coefficients are the published ones, for every dimension.** Over a field of characteristic 0, for
+every `n ≠ 0` (also `n = 1`): what `_Step` computes with `adaptive` - `1+2/dim`, `0.75-1/(2*dim)`, `1-1/dim` - is the
+Gao-Han set `(n+2)/n`, `(3n-2)/(4n)`, `(n-1)/n` with `rho = 1`; without `adaptive` it is the standard set
+`(1, 2, 1/2, 1/2)` of the reference (l.180). -/
+theorem nm_coefficients_are_published [Field R] [CharZero R] (adaptive : Bool) (n : R) (hn : n ≠ 0) :
+    mysticCoef (1 : R) 2 (1 / 2) (3 / 4) adaptive n = publishedCoef 1 2 3 4 adaptive n := by
+  unfold mysticCoef publishedCoef
+  cases adaptive
+  · simp
+  · simp only [if_true, Coef.mk.injEq, true_and, and_true]
+    refine ⟨?_, ?_, ?_⟩ <;> (field_simp; try ring)
+
+/-- **One dimension: the adaptive shrink coefficient is 0** (`1 - 1/1`), the contraction coefficient 1/4, the expansion
+coefficient 3 - not the standard 1/2, 1/2, 2 - and a shrink step then puts every vertex ON the best one
+(`sim[j] = sim[0] + 0*(sim[j]-sim[0])`), after which the convergence test compares zeros. -/
+theorem nm_adaptive_one_dimension [Field R] [CharZero R] :
+    (mysticCoef (1 : R) 2 (1 / 2) (3 / 4) true 1).sigma = 0 ∧
+    (mysticCoef (1 : R) 2 (1 / 2) (3 / 4) true 1).psi = 1 / 4 ∧
+    (mysticCoef (1 : R) 2 (1 / 2) (3 / 4) true 1).chi = 3 ∧
+    ∀ (c : Coef R), c.sigma = 0 → ∀ (x0 xj : Pt R), xj.length = x0.length → shrinkPt c x0 xj = x0 := by
+  refine ⟨by simp [mysticCoef], by simp [mysticCoef]; norm_num, by simp [mysticCoef]; norm_num, ?_⟩
+  intro c hc x0
+  unfold shrinkPt vadd vscale vsub
+  rw [hc]
+  induction x0 with
+  | nil => intro xj _; simp
+  | cons a as ih =>
+    intro xj hl
+    cases xj with
+    | nil => simp at hl
+    | cons b bs =>
+      simp only [List.length_cons, Nat.add_right_cancel_iff] at hl
+      have := ih bs hl
+      simp only [List.zipWith_cons_cons, List.map_cons, zero_mul, add_zero, List.cons.injEq, true_and] at this ⊢
+      exact this
+
+/-- **Two dimensions: the adaptive set IS the standard set** (`1+2/2 = 2`, `3/4-1/4 = 1/2`, `1-1/2 = 1/2`): for `n = 2`
+the keyword changes nothing; for every other dimension at least the expansion coefficient differs. -/
+theorem nm_adaptive_two_dimensions_is_standard [Field R] [CharZero R] (n : R) (hn : n ≠ 0) :
+    mysticCoef (1 : R) 2 (1 / 2) (3 / 4) true 2 = mysticCoef 1 2 (1 / 2) (3 / 4) false 2 ∧
+    ((mysticCoef (1 : R) 2 (1 / 2) (3 / 4) true n).chi = (mysticCoef (1 : R) 2 (1 / 2) (3 / 4) false n).chi → n = 2) := by
+  constructor
+  · simp only [mysticCoef, if_true, Bool.false_eq_true, if_false, Coef.mk.injEq, true_and, and_true]
+    refine ⟨?_, ?_, ?_⟩ <;> norm_num
+  · simp only [mysticCoef, if_true, Bool.false_eq_true, if_false]
+    intro h
+    have h2 : (2 : R) / n = 1 := by linear_combination h
+    field_simp at h2
+    exact h2.symm
+
+/-- non-vacuity at `Rat`: n = 1, 3 and the standard set -/
+example : (mysticCoef (1 : Rat) 2 (1 / 2) (3 / 4) true 1).sigma = 0 := by decide +kernel
+example : ((mysticCoef (1 : Rat) 2 (1 / 2) (3 / 4) true 3).chi, (mysticCoef (1 : Rat) 2 (1 / 2) (3 / 4) true 3).psi,
+    (mysticCoef (1 : Rat) 2 (1 / 2) (3 / 4) true 3).sigma) = (5 / 3, 7 / 12, 2 / 3) := by decide +kernel
+example : shrinkPt (mysticCoef (1 : Rat) 2 (1 / 2) (3 / 4) true 1) [5] [7] = [5] := by decide +kernel
+example : shrinkPt (mysticCoef (1 : Rat) 2 (1 / 2) (3 / 4) false 1) [5] [7] = [6] := by decide +kernel
 
 /-! ## Powell: the staged machine of `PowellDirectionalSolver` refines the reference direction-set loop
 
